@@ -36,6 +36,11 @@ static void text_tree(Rng &r, Node &n, int depth, int &budget, bool &big) {
         }
         else if (t < 86) { c.t = V_INT; c.i = interesting_int(r); }
         else { c.t = V_BOOL; c.b = r.chance(1, 2); }
+        if (!n.kids.empty() && !c.is_container() && !n.kids.back().is_container() && r.chance(1, 6)) {
+            // neighbours that are equal or nearly equal (same value, negated / +0.0 and -0.0, off by one)
+            c = n.kids.back(); c.name.clear();
+            switch (r.below(3)) { case 0: break; case 1: c.d ^= 0x8000000000000000ULL; if (c.i != INT64_MIN) c.i = -c.i; break; default: c.d = (r.chance(1, 2) ? 0x8000000000000000ULL : 0); if (c.i < INT64_MAX) c.i++; break; }
+        }
         if (n.t == V_OBJ) {
             Bytes nm;
             do { nm.clear(); size_t l = r.below(5); for (size_t k = 0; k < l; k++) nm.push_back(r.chance(1, 10) ? 0 : (uint8_t)('a' + r.below(26))); } while (std::find(names.begin(), names.end(), nm) != names.end());
@@ -72,6 +77,7 @@ Plan tostring_generate(uint64_t base, const std::string &prop, uint64_t index, i
         else pre = 1;
     }
     p.par["pre"] = pre;
+    if (rd.chance(1, 4)) p.par["locale"] = 1;       // the application runs under a locale other than "C"
     p.par["only_cap"] = -1;
     p.faults.push_back("F5:every_capacity");
     return p;
@@ -79,6 +85,7 @@ Plan tostring_generate(uint64_t base, const std::string &prop, uint64_t index, i
 
 Result tostring_execute(const Plan &p, const ExecCtx &c) {
     Result r;
+    LocaleScope locale_scope(p.P("locale") != 0);
     Trace tr; tr.verbose = c.verbose;
     Sink sink; sink.own = c.prop; sink.cnt = &r.cnt;
     PSession ps(tr, sink, r.cnt);
@@ -117,7 +124,15 @@ Result tostring_execute(const Plan &p, const ExecCtx &c) {
     size_t top = N + 3;
     if (only >= 0) caps.push_back((size_t)only);
     else if (top <= 4100) for (size_t cc = 0; cc <= top; cc++) caps.push_back(cc);
-    else { std::set<size_t> s; Rng rc(p.seed ^ 0x7057); for (size_t cc = 0; cc < 64; cc++) s.insert(cc); for (long d = -40; d <= 3; d++) if ((long)N + d >= 0) s.insert((size_t)((long)N + d)); for (int k = 0; k < 400; k++) s.insert(rc.below(top + 1)); caps.assign(s.begin(), s.end()); }
+    else {
+        // long texts: boundary-biased sample; very long ones (huge tokens) fewer points, every run must stay far below the watchdog
+        bool huge = N > 20000;
+        std::set<size_t> s; Rng rc(p.seed ^ 0x7057);
+        for (size_t cc = 0; cc < (huge ? 16u : 64u); cc++) s.insert(cc);
+        for (long d = huge ? -16 : -40; d <= 3; d++) if ((long)N + d >= 0) s.insert((size_t)((long)N + d));
+        for (int k = 0; k < (huge ? 50 : 400); k++) s.insert(rc.below(top + 1));
+        caps.assign(s.begin(), s.end());
+    }
     std::string full; bool have_full = false;
     uint64_t points = 0;
     for (size_t cap : caps) {
